@@ -1474,10 +1474,11 @@ Lemma keys_put_in h x s s' : get_sess h x = Some s -> map fst (h_sessions (put_s
 Proof. intros H. unfold put_sess. cbn [h_sessions set_sessions]. apply keys_aset_in. unfold get_sess in H. congruence. Qed.
 
 Lemma Jg_do_hello xr xs h g c cn hl :
+  WFg xr none1 h -> aget (h_conns h) c = Some (mkconn (c_addr cn) None (match hl with HResume _ => c_expect cn | _ => false end)) ->
   (forall x s, get_sess h x = Some s -> s_conn s <> Some c) -> Jg xr xs h g ->
   Jg xr xs (fst (do_hello h c cn hl)) (gouts g (snd (do_hello h c cn hl))).
 Proof.
-  intros Hno HJ. unfold do_hello.
+  intros W Hcc Hno HJ. unfold do_hello.
   assert (Jexp : forall h0 e, same h h0 -> (forall x, get_sess h0 x = get_sess h x) ->
             Jg xr xs (set_conns h0 (aset (h_conns h0) c (mkconn (c_addr cn) None true))) (gouts g [ToConn c (SError e)])).
   { intros h0 e E Eg. apply Jg_irr; [reflexivity|]. apply Jg_set_conn; [eapply Jg_same; eauto|].
@@ -1517,25 +1518,32 @@ Proof.
         destruct (N.eqb_spec c0 c'); [reflexivity|now apply aget_aset_other].
       - unfold send_conn. rewrite Hc'. repeat split; try reflexivity. intros c0. cbn [fst].
         destruct (N.eqb_spec c0 c') as [->|]; [exact Hc'|reflexivity]. }
-    destruct P as [h1 outs1]. cbn [fst snd] in HP. destruct HP as (I1 & Ps & Pr & Pb & Pc & Pn & Pcn). cbn [fst snd].
+    pose proof (wf_resume_attached xr h c cn n s W Hcc Hs Hv) as W5. cbv zeta in W5. fold P in W5.
+    destruct P as [h1 outs1]. cbn [fst snd] in HP, W5. destruct HP as (I1 & Ps & Pr & Pb & Pc & Pn & Pcn). cbn [fst snd].
     assert (Hs1 : get_sess h1 n = Some s) by (unfold get_sess; now rewrite Ps).
     destruct (gouts_irr outs1 g I1) as [Gb1 Gv1].
     set (g2 := gout (gouts g outs1) (ToConn c (SHello n (sess_userid h n s)))).
     assert (Hb2 : g_bind g2 c = Some n) by (unfold g2; cbn; now rewrite N.eqb_refl).
     destruct (gouts_flush (s_pending s) g2 c n Hb2 (fun m Hm => j_nohello _ _ (proj1 HJ) n s m Hs Hm)) as [Gb3 Gv3].
-    rewrite gouts_app, gouts_cons. fold g2.
+    match goal with |- context [if _ then _ else (?hh, ?oo)] => set (h5 := hh) in *; set (outs5 := oo) end.
+    assert (J5 : Jg xr xs h5 (gouts g outs5)).
+    { unfold outs5. rewrite gouts_app, gouts_cons. fold g2.
     eapply (Jg_resume xr xs h g _ _ c n s (c_addr cn) HJ Hs Hv Hno).
-    + intros x. unfold get_sess at 1. cbn [h_sessions set_conns set_clients set_expired put_sess set_sessions].
+    + intros x. unfold get_sess at 1. cbn [h5 h_sessions set_conns set_clients set_expired put_sess set_sessions].
       rewrite Ps. apply aget_aset.
-    + cbn [h_sessions set_conns set_clients set_expired]. rewrite (keys_put_in h1 n s _ Hs1). now rewrite Ps.
+    + cbn [h5 h_sessions set_conns set_clients set_expired]. rewrite (keys_put_in h1 n s _ Hs1). now rewrite Ps.
     + exact Pr.
     + exact Pb.
     + exact Pc.
     + exact Pn.
-    + intros c0. cbn [h_conns set_conns set_clients set_expired put_sess set_sessions]. rewrite aget_aset.
+    + intros c0. cbn [h5 h_conns set_conns set_clients set_expired put_sess set_sessions]. rewrite aget_aset.
       destruct (N.eqb c0 c); [reflexivity|apply Pcn].
     + intros c0. rewrite Gb3. unfold g2. cbn [gout g_bind]. destruct (N.eqb c0 c); [reflexivity|apply Gb1].
-    + intros x. rewrite Gv3. unfold g2. cbn [gout g_view]. rewrite !Gv1. reflexivity.
+    + intros x. rewrite Gv3. unfold g2. cbn [gout g_view]. rewrite !Gv1. reflexivity. }
+    destruct (queue_closes s); [|exact J5].
+    (* a queued bye / disinvite closes the connection and the session: a closed session has no view obligations *)
+    pose proof (Jg_close_conn xr xs h5 (gouts g outs5) c W5 J5) as J6.
+    destruct (close_conn h5 c) as [h6 o6]. cbn [fst snd] in *. rewrite gouts_app. exact J6.
 Qed.
 
 (* ------------------------------------------------------------------ a member is added to a room *)
@@ -2287,7 +2295,8 @@ Proof.
   - (* hello *)
     destruct (aget (h_conns h) c) as [cn|] eqn:Hc; [|exact HJ]. destruct (c_sess cn) eqn:Hcs; [exact HJ|].
     pose proof (nobody_on h g c cn (proj1 HJ) Hc Hcs) as Hno.
-    apply Jg_do_hello; [exact Hno|]. now apply Jg_set_conn.
+    apply Jg_do_hello; [now apply wf_set_conn_nosess|hsimpl; apply aget_aset_same| |now apply Jg_set_conn].
+    exact Hno.
   - (* join *)
     apply J_with_session; auto. intros cn sid s Hc Hcs Hs Hv.
     pose proof (Jg_do_join h g c sid s rn rs rep W HJ Hs Hv (Hquiet cn sid Hc Hcs)) as J1.
